@@ -42,14 +42,15 @@ func runFR(c *Ctx, s *Sink) {
 					continue
 				}
 				call, ok := ast.Unparen(as.Rhs[0]).(*ast.CallExpr)
-				if !ok || !isCallTo(info, call, "pkg/obialign.LocatePattern") || len(call.Args) != 3 {
+				if !ok || !isLocateCall(info, call) || locateFragment(info, call) == nil {
 					continue
 				}
+				frgArg := locateFragment(info, call)
 				n++
 				key := fmt.Sprintf("%s:LocatePattern#%d", funcName(p, fd), n)
 				from, to := rootObj(info, as.Lhs[0]), rootObj(info, as.Lhs[1])
 				// fragment definition
-				frgObj := rootObj(info, call.Args[2])
+				frgObj := rootObj(info, frgArg)
 				var sl *ast.SliceExpr
 				var slPos token.Pos
 				for j := i - 1; j >= 0; j-- {
@@ -60,7 +61,7 @@ func runFR(c *Ctx, s *Sink) {
 						break
 					}
 				}
-				if se, ok := ast.Unparen(call.Args[2]).(*ast.SliceExpr); ok {
+				if se, ok := ast.Unparen(frgArg).(*ast.SliceExpr); ok {
 					sl, slPos = se, as.Pos()
 				}
 				if sl == nil || sl.Low == nil || sl.High == nil {
